@@ -174,9 +174,23 @@ def shard_ptrace(_, tier):
     progs = [("tag_eq", base16.hex(), base16.hex()), ("tag_eq", bytes(m16).hex(), base16.hex()), ("macresult_eq", base32.hex(), base32.hex()),
              ("poly1305", pat(5, 0, 32).hex(), pat(5, 0, 67).hex()), ("selftest_leaky", "00ff", ""), ("selftest_leaky", "0000", "")]
     agree = 0
+
+    def norm(seq):
+        """instructions outside the victim's own image (libc memcpy & co, loaded at different addresses and possibly resolved to
+        different ifunc variants under valgrind) are collapsed into one EXT token per excursion"""
+        out = []
+        for a in seq:
+            if abs(a) > 0x2000000:
+                if not out or out[-1] != "EXT":
+                    out.append("EXT")
+            else:
+                out.append(a)
+        return out
+
     for op, sec, pub in progs:
         _, _, _, _, a = lackey.trace(op, sec, pub, keep=True)
         b = pcstep.trace(op, sec, pub)
+        a, b = norm(a), norm(b)
         st.evaluations += 2
         if a != b:
             k = next((i for i, (x, y) in enumerate(zip(a, b)) if x != y), min(len(a), len(b)))
